@@ -39,6 +39,7 @@ type ivNode struct {
 }
 
 type IView struct {
+	skip   func(*ssa.Function) bool
 	root   *ivFrame
 	nodes  []*ivNode
 	entry  *ivNode
@@ -81,8 +82,11 @@ func ivInlinable(fr *ivFrame, callee *ssa.Function) bool {
 }
 
 // NewIView builds the inlined view of fn.
-func NewIView(fn *ssa.Function) *IView {
-	v := &IView{first: map[ivBlockKey]*ivNode{}, last: map[ivBlockKey]*ivNode{}, segs: map[ivBlockKey][]*ivNode{}}
+func NewIView(fn *ssa.Function) *IView { return NewIViewOpt(fn, nil) }
+
+// NewIViewOpt: functions for which skip reports true are not expanded.
+func NewIViewOpt(fn *ssa.Function, skip func(*ssa.Function) bool) *IView {
+	v := &IView{skip: skip, first: map[ivBlockKey]*ivNode{}, last: map[ivBlockKey]*ivNode{}, segs: map[ivBlockKey][]*ivNode{}}
 	v.root = &ivFrame{fn: fn, kids: map[ssa.CallInstruction]*ivFrame{}}
 	if fn.Blocks == nil {
 		return v
@@ -129,7 +133,7 @@ func (v *IView) build(fr *ivFrame) (*ivNode, []*ivNode) {
 					callee = o
 				}
 			}
-			if !ivInlinable(fr, callee) {
+			if !ivInlinable(fr, callee) || (v.skip != nil && v.skip(callee)) {
 				continue
 			}
 			kid := &ivFrame{parent: fr, site: ci, fn: callee, depth: fr.depth + 1, kids: map[ssa.CallInstruction]*ivFrame{}}
